@@ -46,6 +46,21 @@ impl Model {
                 }
             }
         }
+        // ---- C02: no closure saw a transient combination of an old captured bind input and new inputs
+        for (h, pos) in runs.iter() {
+            if let (RK::BMap { l, .. }, Some((b, g))) = (&self.nodes[*h].rk, self.nodes[*h].scope) {
+                // only when the bind re-ran in this very round: under a non-equality cutoff on the bind's
+                // input a maintained closure legitimately keeps an older captured value
+                if self.cone_start.contains(&b) && !self.nodes[b].invalid && self.nodes[b].lc_last_run == Some(round) && self.nodes[b].gen.map_or(false, |cg| cg > g) {
+                    if let RK::Bind { lhs, .. } = &self.nodes[b].rk {
+                        let lv = self.val(*lhs);
+                        if lv.is_some() && lv != Some(MV::I(*l)) {
+                            viol!(self, *pos, "C02", "closure-saw-transient-combination", "node {} ran with the value {} captured from bind {}'s input although that input is {:?} in this stabilise", h, l, b, lv);
+                        }
+                    }
+                }
+            }
+        }
         // ---- C02: inputs were final when a node ran
         for (h, pos) in runs.iter() {
             if self.nodes[*h].invalid {
